@@ -81,6 +81,47 @@ fn check(src: &str) -> Option<Result<(usize, usize), String>> {
         }
         o += ins.body.op_size();
     }
+    // the statements that read from a const / circuit-descriptor segment: `call rel X` has to land on the `ret` of
+    // THE segment that holds that const / that circuit's descriptor, and the pointer computed by the next
+    // instruction (`[ap] = [ap - 1] + Y`, where [ap - 1] is the return pc) has to be the cell of that very const
+    {
+        use cairo_lang_sierra::extensions::circuit::CircuitConcreteLibfunc;
+        use cairo_lang_sierra::extensions::const_type::ConstConcreteLibfunc;
+        use cairo_lang_sierra::extensions::core::CoreConcreteLibfunc;
+        use cairo_lang_sierra::program::Statement;
+        let mut inst_off = vec![];
+        let mut o = 0usize;
+        for ins in &casm.instructions { inst_off.push(o); o += ins.body.op_size(); }
+        for (i, st) in program.statements.iter().enumerate() {
+            let Statement::Invocation(inv) = st else { continue };
+            let Ok(lf) = info.registry.get_libfunc(&inv.libfunc_id) else { continue };
+            // (segment id, offset of the wanted cell behind the segment's `ret`)
+            let want: Option<(u32, usize)> = match lf {
+                CoreConcreteLibfunc::Circuit(CircuitConcreteLibfunc::GetDescriptor(l)) => casm.consts_info.circuit_segments.get(&l.ty).map(|seg| (*seg, 0)),
+                CoreConcreteLibfunc::Const(ConstConcreteLibfunc::AsBox(l)) => casm.consts_info.segments.get(&l.segment_id).and_then(|s| s.const_offset.get(&l.const_type)).map(|off| (l.segment_id, *off)),
+                _ => None,
+            };
+            let Some((seg_id, cell)) = want else { continue };
+            let Some(seg) = casm.consts_info.segments.get(&seg_id) else { continue };
+            let k = casm.debug_info.sierra_statement_info[i].instruction_idx;
+            let (Some(call), Some(add)) = (casm.instructions.get(k), casm.instructions.get(k + 1)) else { continue };
+            let InstructionBody::Call(c) = &call.body else { continue };
+            let Some(d) = imm(&c.target) else { continue };
+            let seg_start = code_len + seg.segment_offset;
+            let target = inst_off[k] as i64 + d;
+            if target != seg_start as i64 { return Some(Err(format!("statement #{i} `{}`: `{call}` lands at offset {target}, its segment #{seg_id} starts at offset {seg_start}", st.to_string().chars().take(70).collect::<String>()))); }
+            if let InstructionBody::AssertEq(a) = &add.body {
+                if let cairo_lang_casm::operand::ResOperand::BinOp(b) = &a.b {
+                    if let Some(y) = imm(&b.b) {
+                        let ptr = inst_off[k] as i64 + call.body.op_size() as i64 + y;
+                        let want_ptr = (seg_start + 1 + cell) as i64;
+                        if ptr != want_ptr { return Some(Err(format!("statement #{i} `{}`: the pointer computed by `{add}` is offset {ptr}, the value lives at offset {want_ptr} (segment #{seg_id} + 1 + {cell})", st.to_string().chars().take(70).collect::<String>()))); }
+                        behind += 1;
+                    }
+                }
+            }
+        }
+    }
     // every const segment starts with `ret`
     for (_, seg) in casm.consts_info.segments.iter() {
         let at = code_len + seg.segment_offset;
